@@ -204,6 +204,39 @@ func checkC08(c *Ctx) {
 			R.Fail("C08-only", fname(u.Fn)+": socket Close", c.pos(u.Instr), "the connection's socket is closed outside (*conn).close")
 		}
 	}
+	// library calls that close the socket on their own: (*tls.Conn).HandshakeContext closes the underlying
+	// net.Conn when its context is done before the handshake ends. In code a handler can run (the exported
+	// methods of Request / ResponseWriter and what they call) its context must therefore be one that is never
+	// cancelled (context.Background / TODO); a cancellable one - the server's shutdown context above all - closes
+	// the socket while other handlers of the connection still run and before the teardown.
+	handlerAPI := map[*ssa.Function]bool{}
+	for _, f := range shipped {
+		if f.Parent() == nil && f.Object() != nil && f.Object().Exported() && f.Signature.Recv() != nil &&
+			(an.TypeIs(f.Signature.Recv().Type(), G, "Request") || an.TypeIs(f.Signature.Recv().Type(), G, "ResponseWriter")) {
+			for g := range syncReach(f) {
+				for _, a := range an.WithClosures(g) {
+					handlerAPI[a] = true
+				}
+			}
+		}
+	}
+	for _, f := range shipped {
+		if !handlerAPI[f] {
+			continue
+		}
+		for _, ci := range an.Calls(f) {
+			cc := ci.Common()
+			if !an.CalleeIs(cc, "crypto/tls", "(*Conn).HandshakeContext") || len(cc.Args) < 2 {
+				continue
+			}
+			nOnly++
+			okCtx := false
+			if call, ok := an.Strip(cc.Args[1]).(*ssa.Call); ok {
+				okCtx = an.CalleeIs(call.Common(), "context", "Background") || an.CalleeIs(call.Common(), "context", "TODO")
+			}
+			R.Check(okCtx, "C08-only", fname(f)+": tls HandshakeContext cannot close the socket", c.pos(ci), "context.Background()/TODO(): never cancelled", "HandshakeContext is given a cancellable context ("+an.Path(cc.Args[1])+") in code that handlers run: when it is cancelled crypto/tls closes the connection's socket itself, while other handlers of the connection are still running and before the teardown")
+		}
+	}
 	R.Floor("C08-only", 3)
 
 	// ---- C08-paired
